@@ -23,6 +23,7 @@ pub fn run(scenario: &[Value], dir: &str, it: &mut Interner, out: &mut Vec<Value
     let mut touched: BTreeSet<usize> = BTreeSet::new();
     hook::disarm();
     let mut failed_live = false;
+    let mut just_failed = false;
     for (k, op) in scenario.iter().enumerate() {
         let c = op["c"].as_str().unwrap();
         match c {
@@ -93,7 +94,13 @@ pub fn run(scenario: &[Value], dir: &str, it: &mut Interner, out: &mut Vec<Value
                 let Some(r) = rln.as_mut() else { continue };
                 // after the injected failure only flush/close are exercised on the live instance: the
                 // property speaks about the report and about what a reopen finds
-                if failed_live && c != "flush" {
+                let is_retry = op.get("retry").and_then(|x| x.as_bool()).unwrap_or(false);
+                let retry_now = is_retry && just_failed;
+                just_failed = false;
+                if is_retry && !retry_now {
+                    continue; // a retry line only runs right after the call that the injected failure hit
+                }
+                if failed_live && c != "flush" && !retry_now {
                     continue;
                 }
                 let nb = r.leaves_set();
@@ -104,6 +111,7 @@ pub fn run(scenario: &[Value], dir: &str, it: &mut Interner, out: &mut Vec<Value
                                     "sops": hook::count() - c0, "fired": hook::fired() > f0});
                 if hook::fired() > f0 {
                     failed_live = true;
+                    just_failed = true;
                 }
                 match res {
                     Ok(Ok(())) => ev["res"] = json!("ok"),
